@@ -119,6 +119,22 @@ def _gen_core(rng, tier):
         yield Case("uniques", [alpha, rs], n > 1, "uniques")
         a, b = rng.choice(rows)[1], rng.choice(rows)[1]
         yield Case("refmuts", [alpha, a, b], True, "refmuts")
+        # a reference with runs of gaps (insertions of the query) that the query itself interrupts with gaps, opens or
+        # closes with a gap; insertions at both ends
+        sym = NT if alpha == 1 else AA
+        Lr = rng.randint(1, 14)
+        rf, q = [], []
+        while len(rf) < Lr:
+            run = rng.randint(1, 5)
+            if rng.random() < 0.5:
+                rf += ["-"] * run
+                q += [rng.choice(sym) if rng.random() < 0.6 else "-" for _ in range(run)]
+            else:
+                for _ in range(run):
+                    ch = rng.choice(sym)
+                    rf.append(ch)
+                    q.append(ch if rng.random() < 0.5 else rng.choice(sym + "-"))
+        yield Case("refmuts", [alpha, "".join(q), "".join(rf)], "-" in rf, "refmuts-gapped-insertions")
         # count profile: a character of the alignment or another one, site in [-1, L]
         ch = rng.choice([ord(rng.choice(rng.choice(rows)[1])), ord(rng.choice(NT + AA)), rng.choice([0, 129, 130, 200])])
         yield Case("profile", [alpha, rs, ch, rng.choice([-1, 0, L - 1, L, rng.randint(0, L)])], ch < 130, "profile")
